@@ -17,6 +17,27 @@ CLAIMED = {
             "trusted: the meta-theorem (docstring of sa/props/c19.py), numpy floored mod, python's ast parser; "
             "user-defined symmetries are out of scope",
             "DESIGN.md §4 C19"),
+    "C15": ("modset",
+            "interprocedural may-alias / mod-set analysis with k-limited access paths and function summaries",
+            "Decides the property for every public value-returning operation in scope (tensor, backend_np, krylov, "
+            "operators, mps, fpeps containers; thorough adds fpeps/envs): a flow-sensitive alias analysis with summaries "
+            "iterated to a fixpoint shows that no write (field/item store, container mutator, in-place array operator, "
+            "out= argument, call of a mutating callee) can land in an object reachable from a parameter; copy()/clone() "
+            "are shown to return storage that does not alias the source; backend kernels write only arrays they allocate.",
+            "conservative may-alias analysis: unresolved calls (listed in evidence) are assumed not to mutate; method calls "
+            "resolve by inferred receiver class / package layering; 8 named exceptions with reasons in sa/props/c15.py; "
+            "torch backends only parsed in the thorough tier",
+            "DESIGN.md §4 C15"),
+    "C16": ("cachepure",
+            "purity/closedness analysis of memoised functions + alias tracking of cached values + table pairing",
+            "Decides transparency of all 20 lru_cache'd metadata functions: each is shown closed and pure together with its "
+            "transitive repository callees (so the key built from all arguments covers every input, including the symmetry "
+            "where the group law is used), every call site passes hashable-by-value arguments, no consumer anywhere writes "
+            "into (a part of) a value handed out by a cache, no cached value is a one-shot iterator, and the "
+            "resize/clear/info tables pair each function with itself and are complete.",
+            "trusted: functools.lru_cache semantics, value-purity of whitelisted numpy/itertools calls, NamedTuple eq/hash; "
+            "unknown external calls inside memoised bodies are listed, not alarmed",
+            "DESIGN.md §4 C16"),
 }
 
 NOT_APPLICABLE = {
